@@ -490,7 +490,10 @@ VAR_DEC = reg(decorate(VAR_BODY, 'dd.bdd.BDD.var'))
 def list_sorted_onto(lst, has, idx=None):
     """lst is the strictly increasing enumeration of exactly the set `has` (witness function idx)"""
     k1, k2, l1 = Int('k1!c'), Int('k2!c'), Int('l!c')
-    idx = idx or getattr(lst, 'idx', None) or IDXW
+    if idx is None:
+        idx = getattr(lst, 'idx', None)
+    if idx is None:
+        idx = IDXW
     return [('sorted', ForAll([k1, k2], Implies(And(0 <= k1, k1 < k2, k2 < lst.n), lst.arr[k1] < lst.arr[k2]),
                               patterns=[MultiPattern(lst.arr[k1], lst.arr[k2])])),
             ('elements', ForAll([k1], Implies(And(0 <= k1, k1 < lst.n), has[lst.arr[k1]]), patterns=[lst.arr[k1]])),
@@ -569,7 +572,8 @@ reg(Contract('dd.bdd.BDD._map_to_level:set', [('self', 'mgr'), ('d', 'set:name')
              post=lambda c: [('levels-of-names', And(
                  ForAll([n_], Implies(c.a.d.has[n_], And(c.S0.vin[n_], c.r.has[c.S0.v2l[n_]])), patterns=[c.a.d.has[n_]]),
                  ForAll([l_], Implies(c.r.has[l_], And(c.S0.lin[l_], c.a.d.has[c.S0.l2v[l_]])), patterns=[c.r.has[l_]])))],
-             ret='set:int', uses=ORD, assumed=True, raises={'ValueError': Raise(when=lambda c: BoolVal(True))},
+             ret='set:int', uses=ORD, assumed=True,
+             raises={'ValueError': Raise(when=lambda c: Not(ForAll([n_], Implies(c.a.d.has[n_], c.S0.vin[n_]), patterns=[c.a.d.has[n_]])))},
              note='assumed (bounded-checked by C03/C04 drivers): translates declared names to their levels, ValueError otherwise'))
 reg(Contract('dd.bdd.BDD._map_to_level:dict', [('self', 'mgr'), ('d', 'dict:name->bool')],
              pre=lambda c: wf(c.S, c.uses),
@@ -577,7 +581,8 @@ reg(Contract('dd.bdd.BDD._map_to_level:dict', [('self', 'mgr'), ('d', 'dict:name
                  ForAll([n_], Implies(c.a.d.has[n_], And(c.S0.vin[n_], c.r.has[c.S0.v2l[n_]])), patterns=[c.a.d.has[n_]]),
                  ForAll([l_], Implies(c.r.has[l_], And(c.S0.lin[l_], c.a.d.has[c.S0.l2v[l_]], c.r.val[l_] == c.a.d.val[c.S0.l2v[l_]])),
                         patterns=[c.r.has[l_]])))],
-             ret='dict:int->bool', uses=ORD, assumed=True, raises={'ValueError': Raise(when=lambda c: BoolVal(True))},
+             ret='dict:int->bool', uses=ORD, assumed=True,
+             raises={'ValueError': Raise(when=lambda c: Not(ForAll([n_], Implies(c.a.d.has[n_], c.S0.vin[n_]), patterns=[c.a.d.has[n_]])))},
              note='assumed (bounded-checked): translates declared names to levels keeping bool(value)'))
 
 
@@ -953,3 +958,152 @@ for _full, _nm, _kind in ((True, 'dd.bdd.BDD.collect_garbage', 'none'), (False, 
                                                                                          patterns=[c.a.roots.has[x_]]))] if _k != 'none' else []),
                  post=gc_post(_full), modifies=GC_MOD, ret='none', uses=None,
                  loops={0: dict(inv=gc_inv(_full), modifies_sets=['unused'], modifies_mgr=[('self', GC_MOD)])}))
+
+
+# ---------------------------------------------------------------------------------------------------------------
+# entry bodies (C03, C04): quantify / forall / exist / cofactor
+# (an undeclared name in qvars makes _map_to_level raise ValueError; the precondition `qvars-declared` excludes it)
+
+
+def quant_entry(name, forall_value):
+    def pre(c):
+        return wf(c.S, c.uses) + [('ref', isref(c.S, c.a.u))] + q_is_levels_of(c.S, c.a.qvars)
+
+    def post(c):
+        S0, S1, a, r = c.S0, c.S1, c.a, c.r
+        g0 = guard(S0)
+        want = qfar(S0, a.u) if forall_value else qexr(S0, a.u)
+        return [(nm, Implies(g0, cl)) for nm, cl in wf(S1, c.uses)] + [
+            ('closure', Implies(g0, And(isref(S1, r), semr(S1, r) == want))), ('Ext', Implies(g0, Ext(S0, S1, c.uses))),
+            ('ctx-kept', S1.ctx == S0.ctx), ('reordering-still-enabled', (S1.lastlen >= 0) == (S0.lastlen >= 0))]
+    return reg(Contract(name, [('self', 'mgr'), ('qvars', 'set:name'), ('u', 'int')], pre=pre, post=post, modifies=M.ALLF, ret='int',
+                        uses={'cache', 'rc', 'qe', 'order'},
+                        raises={'_NeedsReordering': Raise(when=lambda c: And(c.S0.ctx, c.S0.lastlen >= 0), post=nr_post()),
+                                'RuntimeError': Raise(when=lambda c: BoolVal(True))}))
+
+
+quant_entry('dd.bdd.BDD.forall', True)
+quant_entry('dd.bdd.BDD.exist', False)
+
+
+def cofactor_body_pre(c):
+    S, a = c.S, c.a
+    vals = a.values
+    return wf(S, c.uses) + in_context(c) + [
+        ('A2-is-A-overridden-by-the-constants', ForAll([l_], A2[l_] == If(And(S.lin[l_], vals.has[S.l2v[l_]]), vals.val[S.l2v[l_]], A[l_]),
+                                                       patterns=[A2[l_]]))]
+
+
+def cofactor_body_post(c):
+    S0, S1, a, r = c.S0, c.S1, c.a, c.r
+    return wf(S1, c.uses) + [('Ext', Ext(S0, S1, c.uses)), ('substitution', And(isref(S1, r), semr(S1, r) == semr(S0, a.u, 'sem2'))),
+                             flags(S0, S1), ('order-kept', M.keep(S0, S1, list(M.ORDER_FIELDS)))]
+
+
+COFACTOR_BODY = reg(Contract('dd.bdd.BDD.cofactor!body', [('self', 'mgr'), ('u', 'int'), ('values', 'dict:name->bool')],
+                             pre=cofactor_body_pre, post=cofactor_body_post, modifies=M.NODE_MOD, ret='int',
+                             uses={'rc', 'sem2', 'agree:sem2', 'order'},
+                             raises={'ValueError': Raise(when=lambda c: BoolVal(True)), '_NeedsReordering': NR(nr_post()),
+                                     'RuntimeError': Raise(when=lambda c: BoolVal(True))}))
+COFACTOR_DEC = reg(decorate(COFACTOR_BODY, 'dd.bdd.BDD.cofactor'))
+
+
+# ---- compose entry (two contracts: exactly one variable / several variables at once) ---------------------------
+def compose_common_pre(c):
+    S, a = c.S, c.a
+    vs = a.var_sub
+    return wf(S, c.uses) + in_context(c) + [
+        ('ref', isref(S, a.f)),
+        ('replacements-are-refs', ForAll([n_], Implies(vs.has[n_], isref(S, vs.val[n_])), patterns=[vs.has[n_]]))]
+
+
+def compose1_pre(c):
+    S, a = c.S, c.a
+    vs = a.var_sub
+    return compose_common_pre(c) + [
+        ('exactly-one-variable', vs._len == 1),
+        ('A2-A3-set-and-clear-the-variable', ForAll([n_, l_], Implies(vs.has[n_], And(
+            A2[l_] == If(l_ == S.v2l[n_], True, A[l_]), A3[l_] == If(l_ == S.v2l[n_], False, A[l_]))),
+            patterns=[MultiPattern(vs.has[n_], A2[l_]), MultiPattern(vs.has[n_], A3[l_])]))]
+
+
+def compose1_post(c):
+    S0, S1, a, r = c.S0, c.S1, c.a, c.r
+    vs = a.var_sub
+    return wf(S1, c.uses) + [('Ext', Ext(S0, S1, c.uses)),
+                             ('substitution', And(isref(S1, r), ForAll([n_], Implies(vs.has[n_], semr(S1, r) == comp_val(S0, a.f, vs.val[n_])),
+                                                                     patterns=[vs.has[n_]]))),
+                             flags(S0, S1), ('order-kept', M.keep(S0, S1, list(M.ORDER_FIELDS)))]
+
+
+def composeN_pre(c):
+    S, a = c.S, c.a
+    vs = a.var_sub
+    return compose_common_pre(c) + [
+        ('several-variables', vs._len != 1),
+        ('A2-is-simultaneous-substitution', ForAll([l_], A2[l_] == If(And(S.lin[l_], vs.has[S.l2v[l_]]), semr(S, vs.val[S.l2v[l_]]), A[l_]),
+                                                  patterns=[A2[l_]]))]
+
+
+def composeN_post(c):
+    S0, S1, a, r = c.S0, c.S1, c.a, c.r
+    return wf(S1, c.uses) + [('Ext', Ext(S0, S1, c.uses)), ('substitution', And(isref(S1, r), semr(S1, r) == semr(S0, a.f, 'sem2'))),
+                             flags(S0, S1), ('order-kept', M.keep(S0, S1, list(M.ORDER_FIELDS)))]
+
+
+COMPOSE_RAISES = {'ValueError': Raise(when=lambda c: BoolVal(True)), '_NeedsReordering': NR(nr_post()),
+                  'RuntimeError': Raise(when=lambda c: BoolVal(True))}
+reg(Contract('dd.bdd.BDD.compose!body:one', [('self', 'mgr'), ('f', 'int'), ('var_sub', 'dict:name->int')],
+             pre=compose1_pre, post=compose1_post, modifies=REC_MOD, ret='int',
+             uses={'cache', 'rc', 'sem2', 'sem3', 'agree:sem2', 'agree:sem3', 'order'}, raises=COMPOSE_RAISES))
+reg(Contract('dd.bdd.BDD.compose!body:several', [('self', 'mgr'), ('f', 'int'), ('var_sub', 'dict:name->int')],
+             pre=composeN_pre, post=composeN_post, modifies=REC_MOD, ret='int', uses={'cache', 'rc', 'sem2', 'order'}, raises=COMPOSE_RAISES))
+
+
+# ---- decorated compose as seen by callers: case split on the number of substituted variables ------------------------
+def _merge(cond, c1, cN, name):
+    def pre(c):
+        k = cond(c)
+        return [(nm, Implies(k, g)) for nm, g in c1.pre(c) if nm != 'exactly-one-variable'] + \
+               [(nm, Implies(Not(k), g)) for nm, g in cN.pre(c) if nm != 'several-variables']
+
+    def post(c):
+        k = cond(c)
+        return [(nm + '[one]', Implies(k, g)) for nm, g in c1.post(c)] + [(nm + '[several]', Implies(Not(k), g)) for nm, g in cN.post(c)]
+    return Contract(name, c1.params, pre, post, modifies=c1.modifies, ret=c1.ret, raises=c1.raises,
+                    uses=c1.uses | cN.uses, mutates=c1.mutates)
+
+
+COMPOSE_BODY = reg(_merge(lambda c: c.a.var_sub._len == 1, REG['dd.bdd.BDD.compose!body:one'], REG['dd.bdd.BDD.compose!body:several'],
+                          'dd.bdd.BDD.compose!body'))
+COMPOSE_DEC = reg(decorate(COMPOSE_BODY, 'dd.bdd.BDD.compose'))
+
+
+# ---- let: dispatch on the kind of the values (three variants of one function) ------------------------------------------
+def let_contract(kind, inner, dparam):
+    """BDD.let(definitions, u) for a dict of the given value kind delegates to `inner` (decorated)"""
+    def conv(c):
+        a = type(c.a)(**{**c.a.__dict__})
+        setattr(a, dparam, c.a.definitions)
+        if inner is COMPOSE_DEC:
+            a.f = c.a.u
+        return type(c)(**{**c.__dict__, 'a': a})
+
+    def pre(c):
+        return inner.pre(conv(c)) + [('dict-truth', empty_means_no_member(c.a.definitions))]
+
+    def post(c):
+        from vlib.vc.symex import nonempty
+        ne = nonempty(c.a.definitions)
+        return [('empty-definitions-change-nothing', Implies(Not(ne), And(c.r == c.a.u, M.keep(c.S0, c.S1))))] + \
+               [(nm, Implies(ne, g)) for nm, g in inner.post(conv(c))]
+    return reg(Contract(f'dd.bdd.BDD.let:{kind}', [('self', 'mgr'), ('definitions', f'dict:name->{kind}'), ('u', 'int')],
+                        pre=pre, post=post, modifies=M.ALLF, ret='int', uses=inner.uses,
+                        raises={exc: Raise(when=(lambda c, rs=rs: And(__import__('vlib.vc.symex', fromlist=['nonempty']).nonempty(c.a.definitions),
+                                                                       rs.when(conv(c)))), post=rs.post, must=rs.must)
+                                for exc, rs in inner.raises.items()}))
+
+
+LET_BOOL = let_contract('bool', COFACTOR_DEC, 'values')
+LET_INT = let_contract('int', COMPOSE_DEC, 'var_sub')
+LET_NAME = let_contract('name', RENAME_DEC, 'dvars')
